@@ -160,4 +160,4 @@ impl ZXMemory {
 
 #[cfg(kani)]
 #[path = "/verif/hooks/core/memory.rs"]
-mod verif_hooks;
+pub(crate) mod verif_hooks;
